@@ -280,6 +280,16 @@ func (g *gen) tmUpgrade(c *clientRec) {
 	ck := g.n.App.XIBCKeeper.ClientKeeper
 	rev := g.rev()
 	h := g.patt(math.MaxUint64)
+	sameNumber := false
+	if len(c.Heights) > 0 && g.rng.Intn(3) != 0 {
+		// the new revision is anchored at a block number the client still holds a consensus state for in the old revision:
+		// (r1,h) and (r2,h) are two different heights
+		h = c.Heights[g.rng.Intn(len(c.Heights))]
+		if rev == c.Rev {
+			rev = c.Rev + 1
+		}
+		sameNumber = true
+	}
 	chainID := g.tmChainID(100+len(g.clients), rev)
 	if g.try("upgrade/tendermint", func(ctx sdk.Context) error {
 		cs := g.tmClientState(chainID, clienttypes.NewHeight(rev, h))
@@ -290,6 +300,9 @@ func (g *gen) tmUpgrade(c *clientRec) {
 	}) {
 		g.in.op("upgrade tendermint %s to %d-%d", c.Name, rev, h)
 		g.in.feat("upgraded-tendermint")
+		if sameNumber {
+			g.in.feat("same-block-number-in-two-revisions")
+		}
 		c.ChainID, c.Rev = chainID, rev
 	}
 }
